@@ -105,6 +105,12 @@ func (in *condInst) validRef() bool {
 }
 
 func renderExpr(v any) string {
+	if s, ok := stackage.ConvertStack(v); ok {
+		return s.String() // a Stack alias renders as the native Stack, whatever String method it declares
+	}
+	if c, ok := stackage.ConvertCondition(v); ok {
+		return c.String()
+	}
 	switch tv := v.(type) {
 	case string:
 		return tv
